@@ -243,9 +243,11 @@ def _is_self_attribute_assignment(node: ast.AST) -> bool:
     Returns:
         True if node is self attribute assignment
     """
-    if not isinstance(node, ast.Assign):
-        return False
-    return any(_is_self_attribute(t) for t in node.targets)
+    if isinstance(node, ast.Assign):
+        return any(_is_self_attribute(t) for t in node.targets)
+    if isinstance(node, (ast.AugAssign, ast.AnnAssign)):
+        return _is_self_attribute(node.target)
+    return False
 
 
 def _is_self_attribute(node: ast.expr) -> bool:
